@@ -1825,10 +1825,6 @@ func c03Tags(c c03Case, o c03Obs) ([]string, bool) {
 			tags["site:matcher.Match"] = true
 		}
 
-		if q.View.RawPath == "" {
-			tags["view:no-rawpath"] = true
-		}
-
 		if len(q.Calls) >= 2 {
 			tags["calls>=2"] = true
 			nontrivial = true
